@@ -58,6 +58,10 @@ def _strategy(tier):
         Pt=loguniform(-3, 3),
         N0=loguniform(-3, 3),
         Es=es,
+        # common absolute scale of gains and noise (the floors N0/(Es g)
+        # and hence the allocation do not depend on it): tiny or huge gains
+        # with a matching noise level
+        gscale_exp=st.sampled_from([0, 0, 0, 0, -24, -18, -15, -12, 9, 15]),
         perm_seed=seeds,
         simplex=st.lists(st.lists(fl(0.0, 1.0).map(lambda x: round(x, 6)),
                                   min_size=12, max_size=12),
@@ -95,6 +99,12 @@ def check(case, ctx):
     # (float32 arrays are not generated: the library then computes in single
     # precision, which the float64 tolerances here do not describe)
     gdtype = case.get("gdtype", "float64")
+    ge = int(case.get("gscale_exp", 0))
+    if ge:
+        gdtype = "float64"
+        g = [x * 10.0 ** ge for x in g]
+        N0 = N0 * 10.0 ** ge
+        ctx.label("gains_scaled_1e%d" % ge)
     if gdtype.startswith("int") and not all(x == int(x) for x in g):
         gdtype = "float64"
     if gdtype == "float32" and not all(float(np.float32(x)) == x for x in g):
